@@ -34,12 +34,25 @@ func Init(job string) (*LQClient, error) {
 		return nil, err
 	}
 
+	// Rows still CLAIMED were handed out by a previous run of this job that was stopped or
+	// killed before it finished them: hand them out again
+	if err := resetClaimed(dbWrite); err != nil {
+		logger.Error("error resetting claimed URLs", "err", err.Error(), "func", "lq.Init")
+		return nil, err
+	}
+
 	dbWriteSqlc := sqlc_model.New(dbWrite)
 
 	return &LQClient{
 		dbWrite:     dbWrite,
 		dbWriteSqlc: dbWriteSqlc,
 	}, nil
+}
+
+// resetClaimed puts every CLAIMED row back to FRESH.
+func resetClaimed(db *sql.DB) error {
+	_, err := db.Exec("UPDATE urls SET status = 'FRESH', timestamp = strftime('%s', 'now') WHERE status = 'CLAIMED'")
+	return err
 }
 
 func (c *LQClient) ResetURL(ctx context.Context, seed string) error {
